@@ -52,11 +52,20 @@ def collect_inline_obs(L, mmax, tier, to, shapes=None):
             bounds="in-line path of collect(): one call, %d-byte buffer with byte-equality pattern %s (bit k set = byte k+1 equals byte k; "
                    "the registered patterns are listed in obligations.py), concrete byte values, no pending run, concrete CRC start; capacity M symbolic 1..%d, "
                    "fill level and block contents symbolic" % (L, format(shape, "0%db" % (L - 1)), mmax),
-            outside=["a run reaching the 259 limit inside one call (needs >= 259 bytes in one buffer; the limit on the resumed path is covered by collect_len*)"])
+            outside=["runs longer than the buffer (the 259 limit inside one call is covered by collect_longrun_*, on the resumed path by collect_len*)"])
 collect_inline_obs(5, 8, "quick", 900)
 collect_inline_obs(6, 9, "quick", 900, shapes=[0x0f, 0x1f])            # 5 and 6 equal bytes (then a different one): run loop taken more than once
 collect_inline_obs(7, 10, "quick", 900, shapes=[0x1f, 0x3f, 0x2f])
 collect_inline_obs(7, 10, "thorough", 600, shapes=[x for x in range(64) if x not in (0x1f, 0x3f, 0x2f)])
+for _rl, _tier in ((259, "quick"), (260, "quick"), (258, "thorough"), (263, "thorough")):
+    add("collect_longrun_%d" % _rl, "h_collect.c", "h_collect_longrun", {"C04": _tier, "C01": _tier, "C02": _tier},
+        defines=["-DLEN=1", "-DMMAX=14", "-DRUNLEN=%d" % _rl],
+        cbmc=["--unwind", "6", "--unwindset", "h_collect_longrun.0:%d,h_collect_longrun.1:%d,collect.4:258,make_encoder.0:16,make_ref.0:18,compare.0:16" % (_rl + 2, _rl + 4)],
+        backend="kissat", timeout=900, mem_gb=10, shrink="encoder_scratch", extra_src=["crctab.c"], functions=COLLECT_FUNCS, assumptions=COLLECT_ASM + [SHRINK_NOTE],
+        witnesses=["long_run_in_one_call"],
+        bounds="one collect() call on %d equal bytes followed by a different byte (the 259 run-length limit is crossed inside the in-line run loop), fresh state with ample room, "
+               "fill level and capacity (<= 14) symbolic, bytes and CRC start value concrete" % _rl,
+        outside=["capacity effects during a long run (the capacity branches are the subject of the other collect obligations)"])
 collect_obs(0, 9, "quick", 900, False)
 collect_obs(1, 9, "quick", 900, False)
 collect_obs(2, 6, "quick", 1200, True)
